@@ -6,9 +6,14 @@ operator: multi-source combinators (C10-C13 tables, harness/k2m.py) and every
 single-source operator of the C05/C06 tables run through `lift`.  Oracle: on the
 implementation's own boundary log, once the subscriber saw a terminal, every
 source that was subscribed has been unsubscribed (at that instant) and nothing
-is subscribed afterwards."""
+is subscribed afterwards.  Oracle-only families: harness/relcases.py (sources
+that emit inside subscribe(), tail stages, raising subscribers) and
+harness/c02_overlap.py (ONE operator observable subscribed 2-3 times with
+overlapping lifetimes: what a terminated subscriber opened is released, what a
+running one opened is not)."""
 import random
 
+import c02_overlap
 import comb_oracle
 import comb_table
 import k2
@@ -155,6 +160,10 @@ def run(chk):
                          ("single_sync_sub_raises", 4 if q else 50, dict(sync=True, sub_raises=True))]:
         extra[fam], s = relcases.single_family(chk, "C02", fam, n, opts, rx)
         nt_extra += len(s)
+    # OVERLAPPING subscriptions of one operator observable (harness/c02_overlap.py; own random stream): the one
+    # observable object is subscribed 2-3 times, earlier subscribers end while later ones run
+    extra["overlap"], s = c02_overlap.family(chk, "C02", 20 if q else 400, random.Random(f"C02-overlap-{chk.seed}"))
+    nt_extra += len(s)
     chk.cov["distinct_nontrivial"] = nt_multi + len(nt) + nt_timed + nt_extra
     chk.cov["input_distribution"] = {"multi_source": dist, "single_source_per_operator": per_op,
                                      "time_based_release_mode": timed_dist, "oracle_only_families": extra}
@@ -171,10 +180,26 @@ def run(chk):
                        "terminal callbacks raise, and/or with a source that delivers a prefix (possibly its terminal) "
                        "inside subscribe(); judged by: grammar, every source released by the end of the step of the "
                        "terminal, nothing emitted or subscribed afterwards; non-trivial = a source was subscribed, "
-                       "released, and the oracle held")
+                       "released, and the oracle held.  `overlap` (harness/c02_overlap.py, one seed per case, the "
+                       "failing script is shrunk and stored verbatim): ONE observable object built from 1-3 probe "
+                       "sources by each of 46 constructions (the n-ary and binary combinators in both API forms, "
+                       "compositions of two of them, outer-of-inners operators with a mapper, mapper-made trigger/"
+                       "duration sources, repeat/retry, 1-2 single-source stages) subscribed by 2-3 subscribers (half "
+                       "of them behind their own take(1)/take(2)/first()) with overlapping lifetimes -- 70% of the cases "
+                       "subscribe everybody before the first event --, 4-12 steps (25% of the events go to every "
+                       "open subscription of the source, the others to one subscriber's; N:E:C = 6:1:2; 8% "
+                       "dispose), then every subscriber disposes in a random order; each probe subscription is "
+                       "attributed to the subscriber the running step is directed at; judged: at the end of the "
+                       "step of a subscriber's terminal / dispose and ever after everything THAT subscriber opened "
+                       "is disposed, no step directed at one subscriber disposes a subscription of another that "
+                       "is still running, nothing is open at the end, nothing escapes; non-trivial = a subscriber "
+                       "ended while another one was running and the oracle held")
     return chk.finish(trusted_extra=["runner assumption: an operator's disposable holds every subscription/timer it "
                                      "opened (Ops/Multi.v) -- this run compares unsubscribe instants operator by "
-                                     "operator", "harness/k2m.py, harness/k2.py drivers"],
+                                     "operator", "harness/k2m.py, harness/k2.py drivers",
+                                     "harness/c02_overlap.py: a probe subscription is attributed to the subscriber "
+                                     "the running step is directed at (the one subscribing / disposing / owning the "
+                                     "source subscription an event is delivered to)"],
                       assumptions=["group/window observables handed to the subscriber (ref-counted release) are "
                                    "covered in C18/C19; the timing rules of time-based operators in C15-C17 (their release is "
                                    "checked here too)"])
@@ -183,6 +208,8 @@ def run(chk):
 def replay(chk, path):
     import json
     d = json.load(open(path))
+    if c02_overlap.is_replay(d):
+        return c02_overlap.replay_main("C02", path)
     if relcases.is_replay(d):
         return relcases.replay_main("C02", path)
     if "cases" in d:
